@@ -7,10 +7,13 @@
    also carries [rank] = the stored changes of the replica sorted by their real OrderId STRINGS (computed by the harness
    from the strings themselves, not from GetAfterOrder); the model's order ids must induce the same ranking (code 1), and
    the ranking must be the stored sequence, causal, stable over time and a function of the stored set (code 2,
-   spec_oid).  These histories contain local AddContent steps (XLocal). *)
+   spec_oid).  These histories contain local AddContent steps (XLocal).
+   CPool cases (Model/TreePool.v): several independent trees + one flat trace of additions, whole reads and readers in
+   progress (open / next / close), every event with what the implementation returned / handed out; code 1 = an
+   observation differs from the model's ([pstep false]), code 2 = spec_C06_pool false on the observed trace. *)
 From Coq Require Import List NArith Bool Arith.
 Import ListNotations.
-From AnySync Require Export Model.Tree Model.TreeReject Model.OrderIds Model.OrderIdsQ.
+From AnySync Require Export Model.Tree Model.TreeReject Model.OrderIds Model.OrderIdsQ Model.TreePool.
 
 Definition mode_eqb (a b : mode) : bool :=
   match a, b with
@@ -160,7 +163,35 @@ Definition spec_oid (G : list change) (hists : list (list istep)) : bool :=
   && forallb (rank_hist_ok []) hists
   && fun_of_set (keyed_of (map rank_of (concat hists))).
 
+(* level 5: several independent trees, interleaved operations, readers in progress (Model/TreePool.v): the model's
+   observation of every event of the trace must be the observed one *)
+Definition opt_eqb (a b : option N) : bool :=
+  match a, b with
+  | Some x, Some y => N.eqb x y
+  | None, None => true
+  | _, _ => false
+  end.
+
+Definition pobs_eqb (a b : pobs) : bool :=
+  match a, b with
+  | OAdd m hs, OAdd m' hs' => mode_eqb m m' && list_eqb hs hs'
+  | OFast hs, OFast hs' => list_eqb hs hs'
+  | ORead l, ORead l' => list_eqb l l'
+  | OItem x, OItem y => opt_eqb x y
+  | ONone, ONone => true
+  | _, _ => false
+  end.
+
+Fixpoint run_pool (G : list change) (s : pstate) (tr : list (pev * pobs)) : bool :=
+  match tr with
+  | [] => true
+  | (e, o) :: r =>
+      let '(s', o') := pstep false G s e in
+      negb (existsb (fun kt => t_oof (snd kt)) (p_trees s')) && pobs_eqb o o' && run_pool G s' r
+  end.
+
 Inductive case :=
+| CPool (G : list change) (tr : list (pev * pobs))
 | CTree (G : list change) (hists : list (list step))
 | COT (G : list change) (hists : list (list step))
 | COTV (G : list change) (bad : list N) (hists : list (list step))
@@ -168,6 +199,7 @@ Inductive case :=
 
 Definition model_ok (c : case) : bool :=
   match c with
+  | CPool G tr => run_pool G p_init tr
   | CTree G hists => forallb (run_tree G empty_tree) hists
   | COT G hists =>
       match G with
@@ -188,6 +220,7 @@ Definition model_ok (c : case) : bool :=
 
 Definition spec_ok (c : case) : bool :=
   match c with
+  | CPool G tr => spec_C06_pool G tr
   | CTree G hists => spec_C06 G hists
   | COT G hists => spec_C06 G hists
   | COTV G bad hists => spec_C06 G hists && spec_C06_rej G hists && no_bad_shown bad hists
